@@ -139,7 +139,8 @@ Fixpoint tick_list (iv k : N) (n : nat) : list N :=
 
 (* ---------- pace: the one upper bound on time (with slack; the harness retries before it
    reports a miss) ---------- *)
-Definition c13_pace_case := (N * N * nat * impl_res * list N)%type.  (* I, slack, n answered pings, result, starts *)
+Definition c13_pace_case := (N * N * N * nat * impl_res * list N)%type.
+(* I, slack, d = delay of every answer (d <= I), n answered pings, result, starts *)
 
 Fixpoint all_le_plus (slack : N) (impl lo : list N) : bool :=
   match impl, lo with
@@ -148,15 +149,29 @@ Fixpoint all_le_plus (slack : N) (impl lo : list N) : bool :=
   | _, _ => false
   end.
 
+(* drift-free cadence: the mean period (t_n - t_1)/(n-1) is within 15 % of [period] *)
+Definition mean_period_ok (period : N) (starts : list N) : bool :=
+  match starts with
+  | t1 :: _ :: _ =>
+      let tn := last starts 0 in
+      let k := N.of_nat (length starts - 1) in
+      (85 * k * period <=? 100 * (tn - t1)) && (100 * (tn - t1) <=? 115 * k * period)
+  | _ => false
+  end.
+
 Definition c13_pace_spec_ok (c : c13_pace_case) : bool :=
-  let '(iv, slack, n, res, starts) := c in
+  let '(iv, slack, d, n, res, starts) := c in
   impl_res_eqb res IRunning && Nat.eqb (length starts) n && ticks_ok iv starts
-  && all_le_plus slack starts (tick_list iv 1 n).
+  && all_le_plus slack starts (tick_list iv 1 n) && mean_period_ok iv starts.
 
 Definition c13_pace_model_ok (c : c13_pace_case) : bool :=
-  let '(iv, slack, n, res, starts) := c in
-  let o := keepalive iv 1 (zeros n) in
-  impl_res_eqb res (expect (ko_result o)) && all_ge (ko_starts o) starts && all_le_plus slack starts (ko_starts o).
+  let '(iv, slack, d, n, res, starts) := c in
+  let o := keepalive iv (d + 1) (map Answered (repeat d n)) in
+  impl_res_eqb res (expect (ko_result o)) && all_ge (ko_starts o) starts && all_le_plus slack starts (ko_starts o)
+  && (match ko_starts o with
+      | t1 :: _ :: _ => mean_period_ok ((last (ko_starts o) 0 - t1) / N.of_nat (length (ko_starts o) - 1)) starts
+      | _ => false
+      end).
 
 Definition c13_pace_violations (cs : list c13_pace_case) := indices_where (fun c => negb (c13_pace_spec_ok c)) cs.
 Definition c13_pace_mismatches (cs : list c13_pace_case) := indices_where (fun c => negb (c13_pace_model_ok c)) cs.
@@ -185,7 +200,13 @@ Inductive sys_case :=
    observed when [need] pings were answered (or the connection was closed / replaced / the
    scenario's limit passed); times = arrival of each PINGREQ since the CONNACK was sent *)
 | SysPeer (I T d : N) (need : nat)
-    (answered dials closes : nat) (err : impl_res) (times : list N).
+    (answered dials closes : nat) (err : impl_res) (times : list N)
+(* option-presence sweep: CONNECT keep-alive ka, WithPingInterval p, WithTimeout t (0 = option
+   not given).  silent = the broker never answers a PINGREQ (else it answers each at once).
+   need = answered pings to reach (healthy); slack = allowance on the detection time (silent);
+   detect = first Close by the client minus CONNACK (0 if none within the scenario's limit) *)
+| SysOpts (ka p t : N) (silent : bool) (need : nat) (slack : N)
+    (pings answered dials closes : nat) (err : impl_res) (detect : N) (times : list N).
 
 Definition st_fresh : clients := fun _ => mk_cli None false.
 
@@ -211,6 +232,17 @@ Definition sys_spec_ok (c : sys_case) : bool :=
          them within the scenario's limit), none before its tick *)
       Nat.leb need answered && Nat.eqb dials 1 && Nat.eqb closes 0 && impl_res_eqb err INil
       && ticks_ok iv times
+  | SysOpts ka p t silent need slack pings answered dials closes err detect times =>
+      (* the documented rule: PingInterval defaults to the keep-alive, Timeout to PingInterval *)
+      let iv := if p =? 0 then ka else p in
+      let tv := if t =? 0 then iv else t in
+      if iv =? 0 then Nat.eqb pings 0 && Nat.eqb dials 1 && Nat.eqb closes 0 && impl_res_eqb err INil
+      else if silent then
+        Nat.leb 1 closes && Nat.leb 2 dials && impl_res_eqb err (IErr true false false None)
+        && (iv + tv <=? detect) && (detect <=? iv + tv + slack) && ticks_ok iv times
+      else
+        Nat.leb need answered && Nat.eqb dials 1 && Nat.eqb closes 0 && impl_res_eqb err INil
+        && ticks_ok iv times
   end.
 
 (* model: the connection's keep-alive run + the goroutine's reaction + the loop's reaction *)
@@ -263,6 +295,17 @@ Definition sys_model_ok (c : sys_case) : bool :=
           impl_res_eqb err (err_expect (cs_err (st 1%nat))) && Bool.eqb (Nat.eqb closes 0) (negb (cs_closed (st 1%nat)))
           && (match loop_react 1 st with LWait => Nat.eqb dials 1 | _ => false end)
           && all_ge (ko_starts o) times && Nat.leb need answered
+      end
+  | SysOpts ka p t silent need slack pings answered dials closes err detect times =>
+      let o := rc_effective (mk_ro p t) ka in
+      match rc_keepalive_peer o (if silent then [None] else repeat (Some 0) (length times)) with
+      | None => Nat.eqb pings 0 && Nat.eqb dials 1 && Nat.eqb closes 0 && impl_res_eqb err INil   (* no keep-alive *)
+      | Some out =>
+          let st := ka_react 1 out false false st_fresh in
+          impl_res_eqb err (err_expect (cs_err (st 1%nat))) && Bool.eqb (Nat.leb 1 closes) (cs_closed (st 1%nat))
+          && (match loop_react 1 st with LWait => Nat.eqb dials 1 | LRedial => Nat.leb 2 dials | LStop => false end)
+          && (if silent then (ko_end out <=? detect) && (detect <=? ko_end out + slack) && Nat.eqb pings (KeepAlive.pings out)
+              else all_ge (ko_starts out) times && Nat.leb need answered)
       end
   end.
 
